@@ -507,8 +507,8 @@ func execSnapCase(c snapCase, _ core.Source) (res core.Result) {
 			return
 		}
 	}
-	next1, prev1, size1, _ := newIter()
 	next2, prev2, _, raw2 := newIter()
+	next1, prev1, size1, _ := newIter() // the most recently obtained iterator
 	var seen []snapItem
 	for i := 0; i < c.Pre; i++ {
 		x, ok := next1()
@@ -518,6 +518,10 @@ func execSnapCase(c snapCase, _ core.Source) (res core.Result) {
 		}
 		seen = append(seen, x)
 	}
+	// a third iterator is obtained while the first rests where it is (possibly at the end) and moved once:
+	// obtaining or moving it must not move the first
+	next3, _, _, _ := newIter()
+	next3()
 	mutatedBetween := false
 	for i, mname := range c.Mutations {
 		if p, payload := lib.Call(func() { mutate(mname) }); p {
